@@ -587,6 +587,8 @@ def opaque_tensor(it, name, args, kwargs, node, kind="tensor"):
 def call_opaque(it, f, args, kwargs, node):
     """Unknown callable: result unknown; tensors / containers passed to it may be written."""
     tag = f.name if isinstance(f, VExt) else getattr(f, "tag", "object")
+    if isinstance(f, VUnknown) and getattr(f, "recv", None) is not None and not args and not kwargs and str(tag).rsplit(".", 1)[-1] in ("long", "int"):
+        return f.recv  # an index value stored in another integer dtype: the same site numbers
     touched = []
     for a in list(args) + list(kwargs.values()):
         if isinstance(a, VTens):
@@ -667,6 +669,9 @@ def call_torch(it, f, args, kwargs, node):
                     r.obj.fw = x.obj.float_width()
                 else:
                     hasf, inexact = _has_pyfloat(it, x)
+                    items_ = it.concrete_items(x) if isinstance(x, (VList, VTuple)) else None
+                    if hasf or (items_ is not None and len(items_) == 0):
+                        r.obj.float_literal = True  # python floats - or nothing at all: torch.tensor([]) is float32 - make a floating-point tensor
                     if hasf:
                         r.obj.fw = 32  # torch's default dtype for python floats
                         if inexact:
@@ -716,6 +721,46 @@ def _call_torch(it, f, args, kwargs, node):
         r = literal_tensor(it, x, node)
         if f in ("as_tensor", "from_numpy") and isinstance(x, VTens):
             r.obj.may_alias.add(x.obj)
+        return r
+    if f == "broadcast_shapes" and args:
+        from .ops import shape_val
+
+        shp = ()
+        for a in args:
+            items = it.concrete_items(a)
+            if items is None:
+                shp = None
+                break
+            shp = broadcast(shp, tuple(dim_of(x) for x in items), it.site(node))
+        return shape_val(shp)
+    if f == "hypot" and len(args) == 2 and all(isinstance(a, VTens) for a in args):
+        # sqrt(a^2 + b^2) computed with scaling: the same value, without the range loss of forming the squares first
+        a, b = args
+        ta, tb = tterm(a), tterm(b)
+        try:
+            shp = broadcast(tshape(a), tshape(b), it.site(node))
+        except ShapeMismatch as e:
+            it.shape_errors.append((it.site(node), str(e)))
+            shp = None
+        r = it.fresh(T.sqrt(ta * ta + tb * tb) if ta is not None and tb is not None else None, shp, "tensor", node)
+        ws = [x.obj.float_width() for x in (a, b)]
+        if any(w in (32, 64) for w in ws):
+            r.obj.fw = max(w or 64 for w in ws)
+        return r
+    if f in ("max", "min", "maximum", "minimum") and len(args) == 2 and all(isinstance(a, VTens) for a in args) and not kwargs:
+        # the elementwise larger / smaller of two tensors
+        a, b = args
+        ta, tb = tterm(a), tterm(b)
+        try:
+            shp = broadcast(tshape(a), tshape(b), it.site(node))
+        except ShapeMismatch as e:
+            it.shape_errors.append((it.site(node), str(e)))
+            shp = None
+        op_ = "max" if f in ("max", "maximum") else "min"
+        r = it.fresh(T.app(op_, *sorted([ta, tb], key=repr)) if ta is not None and tb is not None else None, shp, "tensor", node)
+        ws = [x.obj.float_width() for x in (a, b)]
+        if any(w in (32, 64) for w in ws):
+            r.obj.fw = max(w or 64 for w in ws)
         return r
     if f == "promote_types" and len(args) == 2:
         wa, wb = dtype_width(args[0]), dtype_width(args[1])
